@@ -13,9 +13,55 @@ import (
 
 type (
 	Map    = sync.Map
-	Pool   = sync.Pool
 	Locker = sync.Locker
 )
+
+// Pool is a deterministic model of sync.Pool: a LIFO free list that always reuses (sync.Pool may drop items at
+// any time, so "never drops" is one of its legal behaviours, and the one that maximises aliasing). Every pool is
+// emptied when a simulation starts, so that a run does not depend on what earlier runs of the process left behind.
+type Pool struct {
+	New func() any
+
+	items      []any
+	registered bool
+}
+
+func (p *Pool) register() {
+	if !p.registered {
+		p.registered = true
+		simrt.RegisterReset(func() {
+			guard.Lock()
+			p.items = nil
+			guard.Unlock()
+		})
+	}
+}
+
+func (p *Pool) Get() any {
+	guard.Lock()
+	p.register()
+	if n := len(p.items); n > 0 {
+		x := p.items[n-1]
+		p.items = p.items[:n-1]
+		guard.Unlock()
+		return x
+	}
+	guard.Unlock()
+	if p.New != nil {
+		return p.New()
+	}
+	return nil
+}
+
+func (p *Pool) Put(x any) {
+	if x == nil {
+		return
+	}
+	guard.Lock()
+	p.register()
+	p.items = append(p.items, x)
+	guard.Unlock()
+}
 
 // guard serialises state changes of the primitives when they are used outside
 // the scheduler (no simulation running, or tear-down).
